@@ -91,10 +91,11 @@ Definition wf_proc (p : proc) : bool :=
   wf_name p && opt_len_ok (p_exe p) && opt_len_ok (p_cwd p) && opt_len_ok (p_root p)
   && match p_fds p with Some fds => forallb (fun f => opt_len_ok (fd_tgt f)) fds | None => true end.
 Definition wf_dir (d : bytes) : bool := nonempty d && last_not_slash d.
+(* the layers directory is an absolute path without a trailing slash *)
+Definition wf_layersdir (d : bytes) : bool :=
+  match d with c0 :: _ :: _ => Ascii.eqb c0 slc | _ => false end && last_not_slash d.
 Definition wf (c : case) : bool :=
-  (* the layers directory is an absolute path without a trailing slash *)
-  match c_layersdir c with c0 :: _ :: _ => Ascii.eqb c0 slc | _ => false end
-  && last_not_slash (c_layersdir c)
+  wf_layersdir (c_layersdir c)
   && (length (c_dirs c) =? 3)%nat && forallb wf_dir (c_dirs c)
   && forallb (fun L => nonempty L && no_slash L) (c_layers c) && nodupb (c_layers c)
   && forallb wf_proc (c_procs c) && nodupb (map p_name (c_procs c))
